@@ -30,7 +30,10 @@ def main():
             env.boot(max_limit=getattr(mod, "MAX_LIMIT", 6000))
             if hasattr(mod, "worker_init"):
                 mod.worker_init(desc.get("tier", "quick"))
-            viol = mod.replay(desc["case"] if "case" in desc else desc)
+            if desc.get("exact") and hasattr(mod, "replay_exact"):
+                viol = mod.replay_exact(desc["exact"])
+            else:
+                viol = mod.replay(desc["case"] if "case" in desc else desc)
             for v in viol:
                 print("VIOLATION property=%s replay=%s" % (pid, a.replay))
                 print("   ", v)
